@@ -384,7 +384,9 @@ func partialA(tier string) []*AScn {
 	return out
 }
 
-func extraA(tier string) []*AScn { return append(append(cancelA(tier), manyA(tier)...), partialA(tier)...) }
+func extraA(tier string) []*AScn {
+	return append(append(cancelA(tier), manyA(tier)...), partialA(tier)...)
+}
 
 // errKinds: plain / timeout-kind / wrapped deadline / one common cause for every failure (the last one only for requests of
 // up to four calls: the largest blocks already take most of the thorough budget)
@@ -473,6 +475,15 @@ func genB(tier string) []proto.RTItem {
 			items = append(items, proto.RTItem{Scn: r, Class: fmt.Sprintf("wire/every-call-fails/%s/runs=%d,e2e=%d", map[bool]string{false: "RunTraceroute", true: "http"}[http], c[0], c[1])})
 		}
 	}
+	// a request no run or probe of which can start (a protocol name the library does not know): an error, no result
+	for _, http := range []bool{false, true} {
+		for _, pn := range []string{"sctp", "UDP6"} {
+			for _, c := range [][2]int{{2, 2}, {1, 0}, {0, 1}} {
+				r := proto.RTScn{Hostname: "203.0.113.77", Protocol: pn, MinTTL: 1, MaxTTL: 4, DelayMs: 10, TimeoutMs: 100, Queries: c[0], E2e: c[1], Dest: 3, IPIDBase: 1500, EchoBase: 150, PublicIP: "fail", HTTP: http}
+				items = append(items, proto.RTItem{Scn: r, Class: fmt.Sprintf("wire/unknown-protocol/%s/runs=%d,e2e=%d", map[bool]string{false: "RunTraceroute", true: "http"}[http], c[0], c[1]), Note: map[string]string{"cannot_start": "1"}})
+			}
+		}
+	}
 	return items
 }
 
@@ -520,6 +531,15 @@ func checkB(it *proto.RTItem, r *proto.RTResult) []proto.Issue {
 			if got < want {
 				return []proto.Issue{{Key: "individual-failures-not-all-exposed", Detail: fmt.Sprintf("%d runs and probes failed, the error exposes %d of them", want, got)}}
 			}
+		}
+		return nil
+	}
+	if it.Note["cannot_start"] != "" {
+		if r.Err == nil {
+			return []proto.Issue{{Key: "failure-swallowed", Detail: "no run or probe of this request can start, success returned: " + r.Summary()}}
+		}
+		if r.Res != nil {
+			return []proto.Issue{{Key: "result-with-error", Detail: ""}}
 		}
 		return nil
 	}
